@@ -50,7 +50,15 @@ def make(pid, props, targets, diffs, trusted, assumptions=(), extra_run=None, ta
             mod = importlib.import_module(modname)
             n = nq if ctx.tier == "quick" else nt
             t0 = time.time()
-            r = mod.run(seed=ctx.seed, n=n, driver=common.DRIVER, thorough=(ctx.tier == "thorough"))
+            try:
+                r = mod.run(seed=ctx.seed, n=n, driver=common.DRIVER, thorough=(ctx.tier == "thorough"))
+            except Exception as e:  # the real code did something the script cannot digest: the tie is broken
+                import traceback
+
+                tb = traceback.format_exc()
+                res.notes.append(f"{modname} crashed: {tb[-1500:]}")
+                res.failures.append({"kind": "corr", "what": f"{modname.split('.')[-1]}:crash", "case": None, "model": None, "impl": f"{type(e).__name__}: {e}", "module": modname, "detail": tb[-1500:]})
+                continue
             res.extra.setdefault("script_wall_s", {})[modname.split(".")[-1]] = round(time.time() - t0, 1)
             _merge(res, modname, r)
 
@@ -60,7 +68,10 @@ def make(pid, props, targets, diffs, trusted, assumptions=(), extra_run=None, ta
         for k in range(1, 4):
             for modname, nq, nt in diffs:
                 mod = importlib.import_module(modname)
-                r = mod.run(seed=ctx.seed * 1000 + 7919 * k, n=max(nq, 400) * 3, driver=common.DRIVER, thorough=False)
+                try:
+                    r = mod.run(seed=ctx.seed * 1000 + 7919 * k, n=max(nq, 400) * 3, driver=common.DRIVER, thorough=False)
+                except Exception:
+                    continue
                 sub = {"oracle": r.get("oracle"), "corr": {}}
                 _merge(res, modname, sub)
             if any(f["kind"] == "oracle" for f in res.failures):
